@@ -290,6 +290,10 @@ pub(crate) use utils::test_utils;
 #[cfg(doctest)]
 mod book_tests;
 
+#[cfg(scylla_verif)]
+#[doc(hidden)]
+pub mod verif;
+
 #[cfg(all(scylla_unstable, feature = "unstable-testing"))]
 #[doc(hidden)]
 pub mod internal_testing {
